@@ -398,6 +398,18 @@ func (g *c12Gen) program(class string) c12Program {
 			"LISTAGG(s, '/') OVER (PARTITION BY k ORDER BY id)", "COUNT(DISTINCT v) OVER (PARTITION BY n)")
 		fn2 := g.pick("", ", MAX(v) OVER (PARTITION BY n) AS m2", ", ROW_NUMBER() OVER (ORDER BY id DESC) AS r2")
 		p.SQL = fmt.Sprintf("SELECT id, k, %s AS a1%s FROM %s WHERE %s", fn, fn2, t.Name, g.pred(""))
+	case "analytic-ties":
+		// several analytic functions whose ORDER BY keys tie: each one sorts the view, so the order in which
+		// the functions of the list are evaluated shows in the values (finding analytic-function-map-order)
+		fns := []string{"NTILE(4) OVER (ORDER BY k % 2)", "ROW_NUMBER() OVER (ORDER BY n % 3)", "PERCENT_RANK() OVER (ORDER BY v - v)", "JSON_AGG(v) OVER (ORDER BY s = s)",
+			"FIRST_VALUE(id) OVER (ORDER BY k % 3)", "LAG(id) OVER (ORDER BY n % 2)", "NTILE(3) OVER (PARTITION BY k % 2 ORDER BY v % 2)", "CUME_DIST() OVER (ORDER BY k % 4)"}
+		g.r.Shuffle(len(fns), func(i, j int) { fns[i], fns[j] = fns[j], fns[i] })
+		n := 3 + g.r.Intn(3)
+		var items []string
+		for i, f := range fns[:n] {
+			items = append(items, fmt.Sprintf("%s AS a%d", f, i))
+		}
+		p.SQL = fmt.Sprintf("SELECT %s FROM %s WHERE %s", strings.Join(items, ", "), t.Name, g.pred(""))
 	case "setop":
 		u := g.bigT()
 		p.Tables = []string{t.Name, u.Name}
@@ -592,7 +604,7 @@ func c12Diff(p c12Program, base, o c12Obs) (key string, detail string) {
 func runC12(seed int64, tier string, out string) {
 	r := rand.New(rand.NewSource(seed))
 	meta := newMeta("C12", seed)
-	meta.Rule = "Part A: RecordRange for every (recordLen, Number) of a grid (quick: all recordLen <= 200 plus boundary and random lengths up to 3000; thorough: all recordLen in [0,3000]) x Number in [1,32], AssignRoutineNumber over a cross product of record counts/minimums/cpu/shared-counter values plus random draws, the NewGoroutineTaskManager+Done life cycle on the package-level manager, CalcMinimumRequired; each compared with Model/Par.v inside Coq. Part B: generated programs (WHERE, ORDER BY/LIMIT, DISTINCT, aggregates, GROUP BY with and without ORDER BY, inner/outer/cross/USING/LATERAL joins, subqueries, analytic functions, set operators, LTSV/JSONL loads, INSERT..SELECT, UPDATE, DELETE, CREATE TABLE AS, ALTER ADD, REPLACE) over tables of sizes straddling multiples of 80 rows, each run by the csvq binary with --cpu 1,2,3,4,8,16 and repetitions; stdout, exit code and all files compared byte for byte with the --cpu 1 run. distinct = distinct (recordLen,Number) splits with Number>1 + distinct AssignRoutineNumber argument classes + distinct program texts."
+	meta.Rule = "Part A: RecordRange for every (recordLen, Number) of a grid (quick: all recordLen <= 200 plus boundary and random lengths up to 3000; thorough: all recordLen in [0,3000]) x Number in [1,32], AssignRoutineNumber over a cross product of record counts/minimums/cpu/shared-counter values plus random draws, the NewGoroutineTaskManager+Done life cycle on the package-level manager, CalcMinimumRequired; each compared with Model/Par.v inside Coq. Part B: generated programs (WHERE, ORDER BY/LIMIT, DISTINCT, aggregates, GROUP BY with and without ORDER BY, inner/outer/cross/USING/LATERAL joins, subqueries, analytic functions (also several per select list over tying sort keys), set operators, LTSV/JSONL loads, INSERT..SELECT, UPDATE, DELETE, CREATE TABLE AS, ALTER ADD, REPLACE) over tables of sizes straddling multiples of 80 rows, each run by the csvq binary with --cpu 1,2,3,4,8,16 and repetitions; stdout, exit code and all files compared byte for byte with the --cpu 1 run. distinct = distinct (recordLen,Number) splits with Number>1 + distinct AssignRoutineNumber argument classes + distinct program texts."
 	w := &shardWriter{dir: out, prop: "C12", max: 1500, meta: meta,
 		header: "From Coq Require Import ZArith NArith List.\nRequire Import Csvq.Model.Par Csvq.Harness.H12.\nImport ListNotations.\nOpen Scope list_scope.\n",
 		footer: func(ls []string) string {
@@ -629,7 +641,7 @@ func runC12(seed int64, tier string, out string) {
 	}
 
 	classes := []string{"where", "where-error", "order", "distinct", "aggregate-all", "group-ordered", "group-ordered-incomparable", "group", "join", "join", "join-big", "lateral", "subquery", "subquery-many-refs",
-		"analytic", "analytic", "setop", "ltsv", "jsonl", "insert-select", "update", "delete", "create-as", "alter-add", "mixed", "replace-one", "replace"}
+		"analytic", "analytic", "analytic-ties", "analytic-ties", "setop", "ltsv", "jsonl", "insert-select", "update", "delete", "create-as", "alter-add", "mixed", "replace-one", "replace"}
 	rounds, reps := 6, 3
 	if tier == "thorough" {
 		rounds, reps = 24, 5
